@@ -221,35 +221,31 @@ func (a *BigInt) M__imul__(other Object) (Object, error) {
 }
 
 func (a *BigInt) M__truediv__(other Object) (Object, error) {
-	b, err := MakeFloat(other)
-	if err != nil {
-		return nil, err
+	if b, ok := ConvertToBigInt(other); ok {
+		return intTrueDiv((*big.Int)(a), (*big.Int)(b))
 	}
-	fa, err := a.Float()
-	if err != nil {
-		return nil, err
+	if b, ok := other.(Float); ok {
+		fa, err := a.Float()
+		if err != nil {
+			return nil, err
+		}
+		return fa.M__truediv__(b)
 	}
-	fb := b.(Float)
-	if fb == 0 {
-		return nil, divisionByZero
-	}
-	return Float(fa / fb), nil
+	return NotImplemented, nil
 }
 
 func (a *BigInt) M__rtruediv__(other Object) (Object, error) {
-	b, err := MakeFloat(other)
-	if err != nil {
-		return nil, err
+	if b, ok := ConvertToBigInt(other); ok {
+		return intTrueDiv((*big.Int)(b), (*big.Int)(a))
 	}
-	fa, err := a.Float()
-	if err != nil {
-		return nil, err
+	if b, ok := other.(Float); ok {
+		fa, err := a.Float()
+		if err != nil {
+			return nil, err
+		}
+		return b.M__truediv__(fa)
 	}
-	fb := b.(Float)
-	if fa == 0 {
-		return nil, divisionByZero
-	}
-	return Float(fb / fa), nil
+	return NotImplemented, nil
 }
 
 func (a *BigInt) M__itruediv__(other Object) (Object, error) {
